@@ -245,7 +245,7 @@ def bibtex_substring(string, start, length):
         start0 = end0 - length
     else: # start == 0:
         return u''
-    return string[start0:end0]
+    return string[max(start0, 0):max(end0, 0)]
 
 
 def bibtex_len(string):
